@@ -6,7 +6,7 @@ from .solver_common import run_parallel, run_bbox
 from .. import solvers, bbox
 from ..impl import Pen
 
-LEAN_MODULES = ["Skglm.Properties.C19", "Skglm.Properties.ProxNewtonDir", "Skglm.Properties.FISTA", "Skglm.Properties.MultiTask", "Skglm.Properties.GramCD"]
+LEAN_MODULES = ["Skglm.Properties.C19", "Skglm.Properties.ProxNewtonDir", "Skglm.Properties.FISTA", "Skglm.Properties.PDCD", "Skglm.Properties.MultiTask", "Skglm.Properties.GramCD"]
 SPARSITY = ("l1", "wl1", "l1l2", "mcp", "wmcp", "scad", "logsum")
 
 
@@ -69,6 +69,7 @@ def run(ctx, rep):
     from . import moves_common
     moves_common.run_pn_direction(ctx, rep, ctx.n(20, 300))
     moves_common.run_fista(ctx, rep, ctx.n(30, 300))
+    moves_common.run_pdcd(ctx, rep, ctx.n(25, 300))
     moves_common.run_mt_moves(ctx, rep, ctx.n(20, 300))
     moves_common.run_gram_moves(ctx, rep, ctx.n(30, 300))
 
